@@ -23,6 +23,9 @@ func chainInvariantCheck(r *ev.Run, id string) {
 	blocks := r.N(100, 140)
 	r.Rule(chaosRule + " Invariant evaluated at every committed height of every history. Non-trivial history = the state events relevant to this property were observed (see event:* counters) and the node finished the script; distinct = digest of the script.")
 	r.Assume("fabricated-block driver follows Tendermint's ABCI call order and validator-update delay (DESIGN.md §8)")
+	if id == "C20" {
+		r.Set("historical_reads", "every other history additionally serves app.Query* reads of application / node records at three fixed past heights between its blocks (each request twice)")
+	}
 	runs := runChaos(r, "chaos-inv", n, func(i int) chain.ChaosCfg {
 		return chain.ChaosCfg{Nodes: 7 + i%6, Apps: 3 + i%3, Accts: 5, Blocks: blocks, Delegators: i%2 == 1, SlashPpm: []int64{0, 7, 0, 33}[i%4]}
 	}, "full")
